@@ -92,7 +92,10 @@ class MonitoredExecutor(Executor):
     def _clear_phys_qubit_in_memory(self, physical_address):
         lab = ("p", physical_address)
         if self.sv.has(lab):
-            o = self.script.choose(self.sv.prob1(lab))
+            # dropping a qubit that is still superposed / entangled is legal; it is discarded by a Z-projection with a
+            # *deterministic* rule (0 whenever possible) that does not consume the measurement script, so that two
+            # runs that only differ in the unspecified leftover state of a MOV source stay in step
+            o = 0 if self.sv.prob1(lab) < 1 - 1e-9 else 1
             self.sv.remove(lab, o)
         self.trace.append(("clear", physical_address))
 
